@@ -4,12 +4,14 @@ From Verif Require Import Proofs.GraphProofs Proofs.SorterProofs Proofs.EngineTa
      Proofs.EngineBuild Proofs.EngineDag Proofs.EngineRefute.
 
 (* persist + every node exists + something changed => PERSISTENCE: not started (also under
-   force: the persist hook runs before the force test), files untouched, new states recorded *)
+   force: the persist hook runs before the force test), files untouched, new states recorded -
+   except in a dry run, which records nothing (F22, repaired) *)
 Theorem C17_persist_spec : forall body c E dyn desel w t f,
   skipflag t dyn desel = false -> existsb (fun b => b) (m_skipif t) = false ->
   has_dyn MAncFailed (tid t) dyn = false ->
   m_persist t = true -> all_exist E w t = true -> any_changed E w t = true ->
-  run_task body c E dyn desel w t f = mkTres OPersist (record_states E w t) [].
+  run_task body c E dyn desel w t f =
+  mkTres OPersist (if dry_run c then w else record_states E w t) [].
 Proof. exact persist_spec. Qed.
 
 (* the recorded rows are exactly the current states of all neighbours ... *)
@@ -23,6 +25,7 @@ Theorem C17_persist_then_unchanged : forall body c c' E dyn dyn' desel w t f f',
   skipflag t dyn desel = false -> existsb (fun b => b) (m_skipif t) = false ->
   has_dyn MAncFailed (tid t) dyn = false ->
   m_persist t = true -> all_exist E w t = true -> any_changed E w t = true ->
+  dry_run c = false ->
   force c' = false -> skipflag t dyn' desel = false ->
   has_dyn MAncFailed (tid t) dyn' = false -> has_dyn MWould (tid t) dyn' = false ->
   let w1 := r_world (run_task body c E dyn desel w t f) in
